@@ -81,7 +81,9 @@ impl CrystalSetup {
           PolarizationType::Extraordinary => -n1,
         }
       }
-      _ => return RIndex::new(0.), // imaginary index
+      // For real principal indices the discriminant b² - 4c is never negative and vanishes exactly along an
+      // optic axis; a rounded value slightly below zero is therefore the double root -b/2, not an imaginary index.
+      _ => 0.5 * b,
     };
 
     if invxsq < 0. {
